@@ -1,4 +1,5 @@
 #!/bin/sh
 # seed_confirm_all.sh <Cxx>: confirm m1..m3 of a property in its scratch worktree (background-safe: does not touch /repo)
 ID=$1
-for m in m1 m2 m3; do [ -d /tmp/seed/$ID/$m ] && /verif/tools/confirm_seed.sh /tmp/wt/$ID /tmp/seed/$ID/$m; done > /tmp/seed/$ID/confirm.log 2>&1
+SEEDROOT=${SEEDROOT:-/tmp/seed}; WTROOT=${WTROOT:-/tmp/wt}
+for m in m1 m2 m3; do [ -d $SEEDROOT/$ID/$m ] && /verif/tools/confirm_seed.sh $WTROOT/$ID $SEEDROOT/$ID/$m; done > $SEEDROOT/$ID/confirm.log 2>&1
